@@ -1,11 +1,8 @@
 #!/bin/sh
-# Builds the simulation worker (plain and race) once so that later checks only
-# pay for an incremental rebuild.  Offline: uses only the module cache.
+# Builds the simulation worker (plain and -race, the latter with its source overlay)
+# once so that later checks only pay for an incremental rebuild.  Offline: uses only
+# the module cache and the installed Go toolchain.
 set -e
-cd "$(dirname "$0")/sim"
-. ./env.sh
-cp -n /repo/tests/go.sum go.sum 2>/dev/null || true
-mkdir -p ../.build
-go build -tags verif -o ../.build/simrun ./cmd/simrun
-go build -race -tags verif -o ../.build/simrun.race ./cmd/simrun
+cd "$(dirname "$0")"
+./check C07 --build-only
 echo setup ok
